@@ -22,4 +22,8 @@ def scenarios(ctx):
              policy=dict(p_send=0.3, p_loss=0.05, p_dup=0.15, maxdelay=15), world=dict(start_seq="alt", mtu=600)),
         dict(name="fragments-mtu1100", n=3 if q else 20, nticks=900 if q else 2500, heal_after=600 if q else 2000,
              policy=dict(p_send=0.3, p_loss=0.05, p_dup=0.15, maxdelay=15), world=dict(start_seq="alt", mtu=1100)),
+        # every retry mode of fragmented messages across link outages longer than the resend interval and the ack time-out
+        dict(name="fragments-outage", n=4 if q else 30, nticks=1100 if q else 3000, heal_after=800 if q else 2400,
+             policy=dict(p_send=0.12, p_loss=0.03, p_outage=0.004, retries=(-1, -1, 1, 0), lens=[1500, 2048, 2451, 2452, 3000, 5000, 7000, 50, 4]),
+             world=dict(start_seq="alt")),
     ]
